@@ -350,7 +350,7 @@ fn world_cleanup(w: &World) {
 // generation
 // ---------------------------------------------------------------------------
 
-const SOURCE_PATHS: [usize; 10] = [0, 1, 2, 3, 4, 5, 6, 7, 8, 15];
+const SOURCE_PATHS: [usize; 12] = [0, 1, 2, 3, 4, 5, 6, 7, 8, 15, 16, 17];
 
 /// Snippet choice biased to valid contents, so that most runs make progress between errors.
 pub fn gen_snippet(rng: &mut Rng) -> usize {
@@ -422,7 +422,7 @@ pub fn generate(seed: u64, with_faults: bool) -> SessionCase {
     let mut steps = Vec::new();
     let mut cur: std::collections::BTreeMap<usize, usize> = Default::default();
     // the editor creates the directories first
-    for d in [0usize, 1, 2, 3] {
+    for d in [0usize, 1, 2, 3, 6] {
         if rng.chance(4, 5) {
             steps.push(Step::Edit(EdOp::MkDir(d)));
         }
